@@ -392,7 +392,10 @@ RefEND(sc, h, ev) ==
       v == IF h.fault # None THEN RefFaultEND(sc, h, ev)
            ELSE IF h.mal # None THEN
               Cond(ev.r # "ok", "C13_malformed_reply_accepted", <<h.mal, ev.r>>)
-              \o Cond(ev.r = "ok" \/ h.mal[1] \in ev.names, "C13_error_does_not_identify_simulator", <<h.mal, ev.r, ev.cat, ev.names>>)
+              \* (another simulator's process may legitimately abort the run first - a justified loop-guard error raised in the
+              \*  same instant wins the race for run()'s exception; the malformed reply is then neither accepted nor mis-reported)
+              \o Cond(ev.r = "ok" \/ h.mal[1] \in ev.names \/ (ev.cat = "loop_guard" /\ guardJust),
+                      "C13_error_does_not_identify_simulator", <<h.mal, ev.r, ev.cat, ev.names>>)
            ELSE IF ev.r = "ok" THEN Cond(~lost, "C02_lost_step", h.dem)
                                      \o Cond(h.warned >= h.expwarn, "C17_event_after_end_ignored_without_warning", <<h.warned, h.expwarn>>)
            ELSE IF ev.cat = "too_slow" THEN         \* RuntimeError of rt_strict
